@@ -12,12 +12,83 @@ import (
 	"strings"
 	"testing"
 
+	"github.com/ozontech/seq-db/frac"
 	"github.com/ozontech/seq-db/frac/token"
 	"github.com/ozontech/seq-db/parser"
 	"github.com/ozontech/seq-db/pattern"
 	"github.com/ozontech/seq-db/zzverif/refdb"
+	"github.com/ozontech/seq-db/zzverif/vfrac"
 	"github.com/ozontech/seq-db/zzverif/vlib"
 )
+
+// c13Pairs — part (4): on a REAL active and sealed fraction, one search that resolves two expressions on the
+// same field (every ordered pair of patterns / ranges, joined by OR and by AND NOT) selects the documents
+// of the union / difference of the two token sets: the resolution of one expression does not depend on
+// another expression resolved in the same search (shared hints: "ab*a" / "ab*b", "*a" / "*b", two ranges).
+func c13Pairs(r *vlib.Run, only *c13Case) {
+	env := vfrac.NewEnv("c13")
+	defer env.Close()
+	toks := words("ab", 3)
+	nums := []string{"1", "2", "3", "5", "7", "8", "9", "10"}
+	var docs []refdb.Doc
+	for i, t := range toks {
+		d := refdb.Doc{ID: refdb.ID{MID: uint64(vfrac.BaseMID + i), RID: uint64(10 + i)}, Body: fmt.Sprintf(`{"i":%d}`, i),
+			Toks: []refdb.Tok{{F: "k", V: t}, {F: "n", V: nums[i%len(nums)]}}}
+		docs = append(docs, d)
+	}
+	a := env.NewActive(env.NextBase(), &frac.Config{})
+	if err := env.Append(a, docs); err != nil {
+		panic(err)
+	}
+	var leaves []refdb.Query
+	for _, p := range words("ab*", 3) {
+		if strings.Contains(p, "*") && !strings.Contains(p, "**") {
+			leaves = append(leaves, refdb.Lit{Field: "k", Pattern: p})
+		}
+	}
+	for _, rg := range [][2]string{{"1", "3"}, {"7", "9"}, {"2", "8"}, {"5", "5"}} {
+		leaves = append(leaves, refdb.Rng{R: refdb.Range{Field: "n", From: rg[0], To: rg[1], IncFrom: true, IncTo: true}})
+	}
+	run := func(form string, f frac.Fraction) {
+		for i, l1 := range leaves {
+			for j, l2 := range leaves {
+				if i == j {
+					continue
+				}
+				for _, q := range []refdb.Query{refdb.Or{L: l1, R: l2}, refdb.And{L: l1, R: refdb.Not{X: l2}}} {
+					pq, err := vfrac.Parse(q)
+					if err != nil {
+						panic(err)
+					}
+					c := c13Case{Kind: "pair", Query: pq.Text}
+					if only != nil && only.Query != pq.Text {
+						continue
+					}
+					r.Add("evaluations", 1)
+					r.Add("pair_searches", 1)
+					qpr, err := vfrac.Search(f, vfrac.Params(pq, 0, vfrac.MaxMID, false, 1000, true))
+					if err != nil {
+						r.Violation(fmt.Sprintf("pair %s form=%s error", pq.Text, form), c, err.Error())
+						continue
+					}
+					want, _ := refdb.Search(docs, q, 0, vfrac.MaxMID, false, 1000)
+					got := vfrac.RefIDs(qpr.IDs.IDs())
+					if fmt.Sprint(got) != fmt.Sprint(want) && !(len(got) == 0 && len(want) == 0) {
+						r.Violation(fmt.Sprintf("pair %s form=%s", pq.Text, form), c, fmt.Sprintf("got %v want %v", got, want))
+					} else if len(want) > 0 && len(want) < len(docs) {
+						r.Distinct("nontrivial", "pair|"+pq.Text)
+					}
+				}
+			}
+		}
+	}
+	run("active", a)
+	s, err := env.Seal(a, frac.SealParams{IDsZstdLevel: 1, LIDsZstdLevel: 1, TokenListZstdLevel: 1, DocsPositionsZstdLevel: 1, TokenTableZstdLevel: 1, DocBlocksZstdLevel: 1}, nil)
+	if err != nil {
+		panic(err)
+	}
+	run("sealed", s)
+}
 
 // sliceProvider: tokens[i] has TID first+i.
 type sliceProvider struct {
@@ -176,6 +247,11 @@ func TestVerifC13(t *testing.T) {
 	r := vlib.NewRun("C13")
 	var rc c13Case
 	if r.LoadReplay(&rc) {
+		if rc.Kind == "pair" {
+			c13Pairs(r, &rc)
+			r.Finish(t, "model_checking", "replay", nil, nil)
+			return
+		}
 		got, want, err := runCase(rc)
 		t.Logf("replay: got=%q want=%q err=%v", got, want, err)
 		judge(r, rc)
@@ -263,10 +339,11 @@ func TestVerifC13(t *testing.T) {
 			}
 		}
 	})
+	c13Pairs(r, nil)
 	r.Sample(c13Case{Kind: "layout", Query: `f:"ab*"`, Tokens: []string{"a", "ab", "aba", "b"}, Ordered: true, Split: []int{1, 2, 1}})
 	ev := r.Get("evaluations")
 	r.Finish(t, "model_checking",
-		fmt.Sprintf("all patterns over {a,b,*} len<=%d x all tokens over {a,b} len<=%d (quoted and bare query forms, ordered and unordered provider); all ranges over %d ends x 4 bracket forms; all sorted dictionaries of <=%d tokens from the 15 tokens of len<=3 x every split into consecutive blocks x all patterns len<=%d. non-trivial = the case matches some but not all tokens", patLen, tokLen, len(ends), dictMax, layoutPatLen),
+		fmt.Sprintf("all patterns over {a,b,*} len<=%d x all tokens over {a,b} len<=%d (quoted and bare query forms, ordered and unordered provider); all ranges over %d ends x 4 bracket forms; all sorted dictionaries of <=%d tokens from the 15 tokens of len<=3 x every split into consecutive blocks x all patterns len<=%d; on a real active and sealed fraction every ordered pair of 2x wildcard patterns (len<=3) and 4 numeric ranges resolved in ONE search (p1 OR p2, p1 AND NOT p2) vs the reference. non-trivial = the case matches some but not all tokens", patLen, tokLen, len(ends), dictMax, layoutPatLen),
 		map[string]any{
 			"states":                        r.DistinctCount("outcomes"),
 			"transitions":                   ev,
